@@ -354,7 +354,9 @@ func unmarshal(bytes []byte, s reflect.Value) error {
 					}
 
 				case tMAC:
-					f.SetBytes(bytes[offset : offset+6])
+					mac := make([]byte, 6)
+					copy(mac, bytes[offset:offset+6])
+					f.SetBytes(mac)
 
 				default:
 					panic(fmt.Errorf("cannot unmarshal field with type '%v'", t.Type))
